@@ -641,6 +641,65 @@ func universe(r *rand.Rand, deg int) int {
 	}
 }
 
+// items whose Less panics (class fault).  foreignItem: a type the stored items cannot be compared with, every
+// comparison panics (the first one, in the root).  lowItem: smaller than every key; its Less panics when it is compared
+// with the key `at` (the current minimum: the last comparison of the descent, in the leftmost leaf, after every split
+// on the way down) or at its n-th comparison (n <= number of levels: some node of the leftmost path).
+type foreignItem string
+
+func (a foreignItem) Less(b btree.Item) bool { return a < b.(foreignItem) }
+
+type lowItem struct {
+	at    int
+	useAt bool
+	left  *int
+}
+
+func (a lowItem) Less(b btree.Item) bool {
+	if a.useAt {
+		if b.(kv).k == a.at {
+			panic("Less: comparison with the minimum key panics")
+		}
+		return true
+	}
+	*a.left--
+	if *a.left <= 0 {
+		panic("Less: this comparison panics")
+	}
+	return true
+}
+
+// the tree actually holds an item (an emptied tree keeps a root without items: nothing to compare with)
+func hasItems(t *btree.BTree) bool {
+	root, _, _ := t.VerifShape()
+	return root != nil && len(root.Items) > 0
+}
+
+// faultInsert issues one ReplaceOrInsert whose item's Less panics, on a non-empty tree, and recovers
+func faultInsert(r *rand.Rand, t *btree.BTree) (what string, panicked bool) {
+	var it btree.Item
+	switch r.Intn(3) {
+	case 0:
+		it = foreignItem("x")
+		what = "ReplaceOrInsert(item of a foreign type: its first Less, in the root, panics)"
+	case 1:
+		mn, _ := t.Min().(kv)
+		it = lowItem{at: mn.k, useAt: true}
+		what = fmt.Sprintf("ReplaceOrInsert(item below every key whose Less panics when it meets the minimum key %d, in the leftmost leaf)", mn.k)
+	default:
+		n := 1 + r.Intn(levels(t))
+		it = lowItem{left: &n}
+		what = fmt.Sprintf("ReplaceOrInsert(item below every key whose Less panics at its comparison no. %d)", n)
+	}
+	defer func() {
+		if recover() != nil {
+			panicked = true
+		}
+	}()
+	t.ReplaceOrInsert(it)
+	return what, false
+}
+
 func genInner(r *rand.Rand, deg int, variant string) vh.Case {
 	t := btree.New(deg)
 	ks := newKeyset()
@@ -651,13 +710,15 @@ func genInner(r *rand.Rand, deg int, variant string) vh.Case {
 	if u > 40 {
 		shapeGap = 15 + r.Intn(15)
 	}
+	note := "" // class fault: what the harness did right before the next step (not a step of the model: nothing happened)
 	do := func(o iop, forceShape bool) {
 		res := applyI(t, o)
 		shadowI(ks, o, res)
 		isWrite := o.kind == "ins" || o.kind == "del" || o.kind == "delmin" || o.kind == "delmax"
 		want := forceShape || (isWrite && (everyShape || len(steps)%shapeGap == 0))
 		sc, ss := optShape(t, want)
-		steps = append(steps, stepRec{"(" + o.coq() + ", " + res.coq() + ", " + sc + ")", o.String() + " = " + res.String() + ss})
+		steps = append(steps, stepRec{"(" + o.coq() + ", " + res.coq() + ", " + sc + ")", note + o.String() + " = " + res.String() + ss})
+		note = ""
 	}
 	read := func() iop {
 		switch x := r.Intn(20); {
@@ -751,6 +812,33 @@ func genInner(r *rand.Rand, deg int, variant string) vh.Case {
 				do(iop{kind: "ins", x: kv{anyKey(r, u), ks.pay()}}, false)
 			}
 		}
+	case "fault":
+		// ReplaceOrInsert calls that panic inside the item's Less at one particular point of the descent and are recovered
+		// by the caller: such a call has not returned, nothing was stored, so the tree must be what it was (the model does
+		// not see the call at all).  Each is followed by Len with the actual tree and by a full Ascend.
+		nops := 30 + r.Intn(30) + u
+		for len(steps) < nops {
+			x := r.Float64()
+			switch {
+			case x < 0.18 && hasItems(t):
+				what, panicked := faultInsert(r, t)
+				if !panicked {
+					// the call returned (no implementation we know does): the foreign item may be in the tree, the history ends here
+					steps = append(steps, stepRec{"(ILen, " + applyI(t, iop{kind: "len"}).coq() + ", None)", "[" + what + " did NOT panic; history ends] Len"})
+					coq, ss := join(steps[:len(steps)-1])
+					return vh.Case{Coq: "(CaseI " + fmt.Sprint(deg) + "%nat " + coq + ")%Z", Nontrivial: len(steps) >= 5,
+						Desc: map[string]interface{}{"kind": "inner tree history with recovered panics in Less", "degree": deg, "steps": ss, "ended": what + " did not panic"}}
+				}
+				note = "[" + what + " panicked and was recovered; nothing was stored] "
+				do(iop{kind: "len"}, true)
+				do(iop{kind: "scan", e: 5 * r.Intn(2), m: 0}, false)
+			case x < 0.86:
+				do(genInnerOp(r, ks, u, r.Intn(6) > 0), false)
+			default:
+				do(read(), false)
+			}
+		}
+		do(iop{kind: "len"}, true)
 	case "sweep":
 		nb := u + r.Intn(2*u)
 		for i := 0; i < nb; i++ {
